@@ -150,6 +150,20 @@ class Translator16(P.Translator2):
             if match(pat, node, env):
                 self.used_rules.add(i)
                 return tmpl.format(**{k: self.pure(v, scope) for k, v in env.items()}), flag
+        if isinstance(node, ast.JoinedStr):
+            # an f-string is the same word as the `"…{}…".format(args)` it abbreviates
+            tmpl, args = "", []
+            for v in node.values:
+                if isinstance(v, ast.Constant) and isinstance(v.value, str):
+                    tmpl += v.value.replace("{", "{{").replace("}", "}}")
+                elif isinstance(v, ast.FormattedValue) and v.conversion == -1 and v.format_spec is None:
+                    tmpl += "{}"
+                    args.append(v.value)
+                else:
+                    raise Untranslatable("f-string with a conversion / format spec: `%s`" % ast.unparse(node))
+            call = ast.Call(func=ast.Attribute(value=ast.Constant(value=tmpl), attr="format", ctx=ast.Load()),
+                            args=args, keywords=[])
+            return self.expr(call, scope)
         fn = self.inlinable(node, scope)
         if fn is not None:
             return self.hoist_inline(node, fn, scope), ""
@@ -1047,7 +1061,7 @@ def fmt_items():
                   ("$l.strip()", "{l}"), ("$l[0]", "(linesHead {l})", "bind"),
                   ('$l.startswith("{")', "(PLine.isOpen {l})", "bool"), ("$l.split()[:2]", "(PLine.first2 {l})", "bind"),
                   ("[]", "([] : List (Option Rat))"), ("np.array($x, dtype=float).reshape((-1, 1))", "{x}"),
-                  ("np.hstack([$a - 1, $b - 1])", "(hstackMinus1 {a} {b})"),
+                  ("$a - 1", "(colMinus1 {a})"), ("np.hstack($l)", "(hstackCols {l})"),
                   ('{"PTS": PointCloud($p, copy=False)}', "{p}")],
             withs=[('$p.open("r")', "{p}")],
             multi=[("$x = $l.pop(0)", [("x", "{_}.1"), ("l", "{_}.2")], "(pop0 {l})")],
